@@ -85,7 +85,7 @@ def gen_replay(acc, wd, name, n, minlen, msk, simulate=None, workers=4, timeout=
     e['JAVA_TOOL_OPTIONS'] = '-Xss1g -Dtlc2.tool.queue.IStateQueue=StateDeque'
     e.update({'N': str(n), 'MINLEN': str(minlen), 'MASK': str(msk)})
     cmd = ['timeout', str(timeout), 'java', '-XX:+UseParallelGC', '-Xmx' + heap, '-cp', vlib.TLA_JAR, 'tlc2.TLC',
-           '-workers', str(workers), '-metadir', os.path.join(wd, 'meta-' + name), '-cleanup', '-noGenerateSpecTE',
+           '-workers', str(workers), '-metadir', os.path.join(wd, 'meta-' + name), '-cleanup', '-noGenerateSpecTE', '-checkpoint', '0',
            '-config', 'Gen_Highlight.cfg']
     if simulate:
         cmd += ['-simulate', simulate, '-depth', str(n + 1), '-seed', str(vlib.seed() + 20 + n)]
